@@ -140,7 +140,8 @@ def run(prop, tier):
             import domtext
             tot = domtext.run_chardata(out, prop, tier, wd)
             names = domtext.run_factory(out, prop, tier, wd)
-            extra_eval = tot["events"] + 4 * names
+            attr_events = domtext.run_attrs(out, prop, tier, wd)
+            extra_eval = tot["events"] + 4 * names + attr_events
             out.extra.update({"chardata_events": tot["events"], "factory_names": names})
         out.evaluations = edges + walk_steps + rstats["steps"] + extra_eval
         out.nontrivial_count = edges
